@@ -704,10 +704,10 @@ def quick_scenarios(rng):
               "iflag": "--in-place",
               "files": [{"rel": "a.json", "mode": 0o444, "content": J(compact_stream([{"k": a[0]}, w2]))}]})
     S.append({"id": "q03-single-abs-empty-output", "style": "abs", "opts": [], "filter": "empty", "fail": None,
-              "files": [{"rel": "a.json", "mode": 0o600, "content": J(compact_stream([a, b]))}]})
+              "files": [{"rel": "a.json", "mode": 0o666, "content": J(compact_stream([a, b]))}]})
     S.append({"id": "q04-two-subdirs", "style": "rel", "opts": ["-c"], "filter": "map(. + 1)", "fail": None,
               "files": [{"rel": "sub/x/a.json", "mode": 0o755, "content": J(pretty_stream([a]))},
-                        {"rel": "sub/y/b.json", "mode": 0o640, "content": J(pretty_stream([b, c]))}]})
+                        {"rel": "sub/y/b.json", "mode": 0o664, "content": J(pretty_stream([b, c]))}]})
     S.append({"id": "q05-three-slurp", "style": "rel", "opts": ["-s", "-c"], "filter": ".", "fail": None,
               "files": [{"rel": "a.json", "mode": 0o644, "content": J(compact_stream(a, " "))},
                         {"rel": "b.json", "mode": 0o444, "content": J(compact_stream(b, " "))},
@@ -731,7 +731,7 @@ def quick_scenarios(rng):
               "filter": "if . == %d then halt else . * 2 end" % c[1],
               "fail": {"kind": "halt", "file": 1, "after_outputs": 1},
               "files": [{"rel": "a.json", "mode": 0o644, "content": J(compact_stream(a, " "))},
-                        {"rel": "b.json", "mode": 0o755, "content": J(compact_stream([c[0] + 300, c[1], 7], " "))}]})
+                        {"rel": "b.json", "mode": 0o775, "content": J(compact_stream([c[0] + 300, c[1], 7], " "))}]})
     S.append({"id": "q09-mmap-big-then-small", "style": "rel", "opts": ["-c"], "filter": "[., %d]" % a[0], "fail": None,
               "files": [{"rel": "big.json", "mode": 0o644,
                          "content": {"rep": ["\"", "ab ", 360000 + rng.randrange(0, 5000), "\"\n[1,2]\n"]}},
